@@ -91,6 +91,10 @@ Definition run_upissuers (sha : bytes -> bytes) (items : list uitem) : bytes :=
   ++ x3a :: show_csv (map (fun it : uitem => b2i (mem_fp (sha (fst it)) (i_known st'))) items)
   ++ x3a :: show_csv (map (fun it : uitem => stored_word sha st' (fst it)) items).
 
+(* computeCacheHash on one entry, printed in hex *)
+Definition run_cachekey (sha : bytes -> bytes) (pre : bool) (cert ikh : bytes) : bytes :=
+  hx (dedup_key sha cert pre ikh).
+
 (* table-backed sha for re-evaluating cases inside Coq (vm_compute cross-check of extraction) *)
 Fixpoint tbl_sha (t : list (bytes * bytes)) (x : bytes) : bytes :=
   match t with
